@@ -68,7 +68,11 @@ def api_call(arg: dict) -> dict:
     """
     ctx = enter(arg["env"])
     from src.orchestrator.core import Orchestrator
-    orch = Orchestrator(project_root=Path(arg["root"]))
+    if arg.get("config_file"):
+        from src.linter_config.loader import LinterConfigLoader
+        orch = Orchestrator(project_root=Path(arg["root"]), config=LinterConfigLoader().load(Path(arg["config_file"])))
+    else:
+        orch = Orchestrator(project_root=Path(arg["root"]))
     m = arg["method"]
     if arg.get("steps_cap"):
         seams.steps_start(arg["steps_cap"])
